@@ -19,13 +19,12 @@ Inductive result := RHash (r : sres bytes) | RWit (in_range : bool).
 Section CACHE.
 Variable pt_ok : bytes -> bool.
 Variable maxvec : N.
-Variables cap_txin cap_txout : N.
 Variable H : bytes -> bytes.
 Variable Htag : bytes -> bytes.
 
 Definition query (o : op) : M bytes :=
   match o with
-  | OLegacy idx sc ty => legacy_sighash pt_ok maxvec cap_txin cap_txout H idx sc ty
+  | OLegacy idx sc ty => legacy_sighash pt_ok maxvec H idx sc ty
   | OSegwit idx sc v ty => segwit_sighash pt_ok maxvec H idx sc v ty
   | OTaproot idx pv a l ty g => a' <- lift (annex_opt a) ;; taproot_sighash pt_ok maxvec H Htag idx pv a' l ty g   (* Annex::new, then the query *)
   | OTapKey idx pv ty g => taproot_key_spend pt_ok maxvec H Htag idx pv ty g
